@@ -392,6 +392,7 @@ func (m *clientHelloMsg) unmarshal(data []byte) bool {
 			if len(d) != namesLen {
 				return false
 			}
+			haveHostName := false
 			for len(d) > 0 {
 				if len(d) < 3 {
 					return false
@@ -403,8 +404,14 @@ func (m *clientHelloMsg) unmarshal(data []byte) bool {
 					return false
 				}
 				if nameType == 0 {
+					// RFC 6066, section 3: HostName<1..2^16-1>, and at most
+					// one name of a type. The whole list is walked: what
+					// follows the host name has to be well formed too.
+					if nameLen == 0 || haveHostName {
+						return false
+					}
 					m.serverName = string(d[:nameLen])
-					break
+					haveHostName = true
 				}
 				d = d[nameLen:]
 			}
@@ -415,6 +422,42 @@ func (m *clientHelloMsg) unmarshal(data []byte) bool {
 			m.nextProtoNeg = true
 		case extensionStatusRequest:
 			m.ocspStapling = length > 0 && data[0] == statusTypeOCSP
+			if m.ocspStapling {
+				// RFC 6066, section 8: an OCSPStatusRequest is
+				// ResponderID responder_id_list<0..2^16-1> (each
+				// ResponderID opaque<1..2^16-1>) followed by
+				// Extensions request_extensions<0..2^16-1>, and
+				// nothing else.
+				d := data[1:length]
+				if len(d) < 2 {
+					return false
+				}
+				idsLen := int(d[0])<<8 | int(d[1])
+				d = d[2:]
+				if len(d) < idsLen {
+					return false
+				}
+				ids := d[:idsLen]
+				d = d[idsLen:]
+				for len(ids) > 0 {
+					if len(ids) < 2 {
+						return false
+					}
+					idLen := int(ids[0])<<8 | int(ids[1])
+					ids = ids[2:]
+					if idLen == 0 || len(ids) < idLen {
+						return false
+					}
+					ids = ids[idLen:]
+				}
+				if len(d) < 2 {
+					return false
+				}
+				extsLen := int(d[0])<<8 | int(d[1])
+				if len(d) != 2+extsLen {
+					return false
+				}
+			}
 		case extensionSupportedCurves:
 			// http://tools.ietf.org/html/rfc4492#section-5.5.1
 			if length < 2 {
